@@ -140,6 +140,10 @@ def parse_sidecars(directory):
                             elif n == 'native':
                                 for k in call.keywords:
                                     c.native[k.arg] = k.value
+                                    if k.arg == 'domain':
+                                        # native(domain=expr): restricts the *generated* inputs of the bounded cross-check
+                                        # to well-typed ones (never used by the proof side)
+                                        c.requires.append(k.value)
                             elif n == 'known':
                                 c.known.append((ast.literal_eval(call.args[0]), call.args[1]))
                             elif n == 'refines':
